@@ -103,8 +103,10 @@ class Ctx:
         self.known = [k for k in load_known() if k["property"] == pid]
 
     # ---------------------------------------------------------------- T0
-    def regen(self):
-        rc, out = sh([sys.executable, os.path.join(VERIF, "tools", "gen_consts.py")], timeout=300)
+    def regen(self, names=()):
+        """T0: regenerate Gen/<Name>.lean for this property's probes (tools/consts/<name>.{c,py})"""
+        names = [self.pid.lower()] + [n.lower() for n in names]
+        rc, out = sh([sys.executable, os.path.join(VERIF, "tools", "gen_consts.py")] + names, timeout=300)
         if rc != 0:
             self.proof["broken"].append({"what": "T0 regeneration failed", "detail": out[-2000:]})
             return False
